@@ -50,6 +50,21 @@ struct C05 : Prop {
 			J post = J::arr(); post.push("quiesce"); ph.set("post", post);
 			phs.push(ph);
 		}
+		// normal mode, one run in three: a node stops answering one kind of request, its response budget fills and further messages for it are held back
+		// (numbered already); then another node is reported lost and / or the application resets the system - the held messages must not leave a hole
+		// in anybody's numbering, and a reset restarts the numbering of that node too
+		if (normal && r.chance(350)) {
+			J b2 = plan["bus"]; J da = J::arr(); da.push((int) MSG_SYS_SW_VERSION); b2.set("drop_answers", da); plan.set("bus", b2);
+			const cat::LL &cheap = cat::table[zero_budget[r.below(zero_budget.size())]];
+			{ J ph = J::obj(); J ops = J::arr(); for (int i = 0, n = (int) r.range(9, 13); i < n; i++) ops.push(pc::ll_op(r, *cat::find("sys_get_sw_version"), hot)); J fl = J::obj(); fl.set("op", "flush"); ops.push(fl);
+			  J tasks = J::arr(); tasks.push(ops); ph.set("tasks", tasks);
+			  std::vector<std::vector<uint8_t>> others; for (auto &n : tree) if (!n.addr.empty() && n.addr != hot && n.addr.size() == 1) others.push_back(n.addr);
+			  if (!others.empty() && r.chance(600)) { J ev = J::arr(); J e = J::obj(); e.set("at_us", 20000); e.set("topo", "lost"); e.set("node", pc::jaddr(others[r.below(others.size())])); ev.push(e); ph.set("bus", ev); }
+			  J post = J::arr(); post.push("quiesce"); ph.set("post", post); phs.push(ph); }
+			{ J ph = J::obj(); J ops = J::arr(); for (int i = 0, n = (int) r.range(1, 4); i < n; i++) ops.push(pc::ll_op(r, cheap, hot)); J tasks = J::arr(); tasks.push(ops); ph.set("tasks", tasks);
+			  if (r.coin()) { J pre = J::arr(); J ro = J::obj(); ro.set("op", "reset"); pre.push(ro); ph.set("pre", pre); }
+			  J post = J::arr(); post.push("quiesce"); ph.set("post", post); phs.push(ph); }
+		}
 		int nph = (int) r.range(normal ? 2 : 1, 2), maxt = 2;
 		for (int p = 0; p < nph; p++) {
 			J ph = J::obj();
